@@ -499,13 +499,7 @@ func (*compiler).VisitFuncCall [C18]
 
 // ================= C02/C01: explicit conversions between the primitive classes =================
 // which (source, target) pairs the type checker admits (package typechecker, VisitCastExpr); 7 = Variable
-spec castOK(s int, k int) bool :=
-  s == 7 ||
-  (k == 1 ? (1 <= s && s <= 5) :
-  (k == 2 ? (s == 1 || s == 2 || s == 3) :
-  (k == 3 ? (s == 1 || s == 2 || s == 3) :
-  (k == 4 ? (s == 1 || s == 4 || s == 3) :
-  (k == 5 ? (s == 1 || s == 5 || s == 3) : false)))))
+spec castOK(s int, k int) bool := s == 7 || ast.castAdmissible(s, k)
 // ASSUMED set-up facts: each primitive descriptor carries the IR type of its class; the shared IR types have their classes
 spec wfDescr(c *compiler) bool :=
      ir.irtyOf(valOf(box(c.ddpinttyp))) == 1 && ir.irtyOf(valOf(box(c.ddpfloattyp))) == 2 && ir.irtyOf(valOf(box(c.ddpbytetyp))) == 3
